@@ -520,6 +520,16 @@ class Router:
         except (PacketTooLongException, SendingException):
             pass
 
+    def _cbf_discard(self, cbf_key: tuple) -> None:
+        """
+        §F.3: a duplicate of a packet that is still waiting in the CBF buffer was overheard:
+        stop its timer and remove it from the buffer so that it is not re-broadcast.
+        """
+        with self._cbf_lock:
+            timer = self._cbf_buffer.pop(cbf_key, None)
+        if timer is not None:
+            timer.cancel()
+
     def gn_area_cbf_forwarding(
         self,
         basic_header: BasicHeader,
@@ -1671,6 +1681,10 @@ class Router:
             print("Incongruent Timestamp Detected!")
         except DuplicatedPacketException:
             print("Packet is duplicated")
+            # The SN-based duplicate detection rejects the packet before the forwarding
+            # algorithm runs; the contention-based forwarding buffer still has to learn of it.
+            self._cbf_discard(
+                (gbc_extended_header.so_pv.gn_addr, gbc_extended_header.sn))
         except DecodeError as e:
             print(str(e))
         return None
